@@ -292,7 +292,7 @@ pub fn vpl_sources(mem: &[MemSource]) -> Vec<(String, String, Vec<u8>)> {
 
 pub fn run(ctx: Arc<Ctx>) {
 	ctx.rule(
-		"sources: 5 container readers x 8 representative tile sets written by the repository's writers (incl. payloads shared by many coordinates of one block); PMTiles (run lengths, shared offsets, leaf directories) and versatiles containers from the independent encoders, tar archives of another tool with hard-link members; a reader with the trait's default box stream whose lookups answer after uneven delays; TilesConvertReader x 4 flag combinations x {unrestricted, restricted} over a MemSource and a versatiles file, and recompressing (gzip -> gzip/brotli/none, with and without force; none -> gzip/brotli over a source that holds zero-length tiles); \
+		"sources: 5 container readers x 8 representative tile sets written by the repository's writers (incl. payloads shared by many coordinates of one block); PMTiles (run lengths, shared offsets, leaf directories) and versatiles containers from the independent encoders, tar archives of another tool with hard-link members, a directory tree with zero-padded aliases and mixed spellings of one format; a reader with the trait's default box stream whose lookups answer after uneven delays; TilesConvertReader x 4 flag combinations x {unrestricted, restricted} over a MemSource and a versatiles file, and recompressing (gzip -> gzip/brotli/none, with and without force; none -> gzip/brotli over a source that holds zero-length tiles); \
 		 pipeline operations and nestings over MemSources, from_debug and a real versatiles file. boxes: all boxes at z<=2 (quick) / z<=3 (thorough), every box with corners from {0,255,256,511,cov_min(-1),cov_max(+1),max} at the sets' high zoom levels, all empty encodings at z 0,1,7,8,9,31. \
 		 oracle: multiset of streamed (coord, bytes) = lookups over the box. non-trivial = (source, box) pairs whose expected result is non-empty",
 	);
@@ -372,6 +372,31 @@ pub fn run(ctx: Arc<Ctx>) {
 					Ok(r) => sources.push((Source { class: "tar reader (archive of another tool, hard-link members)".into(), name: format!("tar reader over an archive with hard-link members, layout {li}"), src: AnySrc::Reader(r), universe: universe_of(&[&shared]), dense_everywhere: false, area_cost: true, build: json!({"kind": "tar-links", "index": li}) }, vec![9])),
 					Err(e) => ctx.outcome(&format!("setup: reader rejects a tar archive of another tool (C16's subject): {}", super::c01::norm_msg(&e))),
 				}
+			}
+		}
+		// a directory tree in which two paths name the same tile (zero-padded spellings, as some export tools write them,
+		// next to the plain ones) and spellings of one format are mixed: whatever the reader decides such a tree holds,
+		// its stream and its lookups must agree on it
+		{
+			let root = work.0.join("aliased.dir");
+			let files: Vec<(String, Vec<u8>)> = vec![
+				("3/1/2.jpg".into(), b"plain 3/1/2".to_vec()),
+				("3/1/02.jpg".into(), b"padded 3/1/02".to_vec()),
+				("3/01/3.jpeg".into(), b"padded column 3/01/3".to_vec()),
+				("3/1/3.jpg".into(), b"plain 3/1/3".to_vec()),
+				("03/2/2.jpeg".into(), b"padded level 03/2/2".to_vec()),
+				("3/5/5.JPG".into(), b"upper case 3/5/5".to_vec()),
+				("9/255/256.jpeg".into(), b"9/255/256".to_vec()),
+				("9/256/256.jpg".into(), b"9/256/256".to_vec()),
+			];
+			crate::codec::dir_write(&root, &files).unwrap();
+			let mut uni = TileMap::new();
+			for k in [(3u8, 1u32, 2u32), (3, 1, 3), (3, 2, 2), (3, 5, 5), (9, 255, 256), (9, 256, 256)] {
+				uni.insert(k, vec![]);
+			}
+			match ct::open(&rt, Cont::Directory, &ct::Written::Path(root)) {
+				Ok(r) => sources.push((Source { class: "directory reader (tree with aliased and mixed spellings)".into(), name: "directory reader over a tree with zero-padded aliases and mixed .jpg/.jpeg/.JPG".into(), src: AnySrc::Reader(r), universe: universe_of(&[&uni]), dense_everywhere: false, area_cost: true, build: json!({"kind": "dir-aliased"}) }, vec![9])),
+				Err(e) => ctx.outcome(&format!("setup: reader rejects a directory tree with aliased spellings: {}", super::c01::norm_msg(&e))),
 			}
 		}
 		// a reader that only implements lookups (box stream = the trait's default), answering after a coordinate-dependent number of Pending polls
